@@ -1134,7 +1134,7 @@ def domain_case(draw, tier):
   if not direct and nd >= 2 and draw(st.booleans()):
     # the round this site is about: every client has examples, client 0 only in
     # domain 0, whose weight starts at 0, and there is a local step to take
-    clients = [c for c in clients if c] or [[[1, 2, 3, 0]]]
+    clients = [c for c in clients if c] or [[[1, 2, _target(fam, 3), 0]]]
     for row in clients[0]:
       row[3] = 0
     return {'site': site, 'family': fam, 'reg': reg, 'num_domains': nd,
